@@ -36,7 +36,7 @@ def _fn_name(f):
     return ("fn", getattr(f, "__module__", "?"), getattr(f, "__qualname__", repr(f)))
 
 
-def canon_graph(roots, *, uid="drop", skip_attrs=(), registered=None, extra_objects=()):
+def canon_graph(roots, *, uid="drop", skip_attrs=(), registered=None, extra_objects=(), return_nodes=False):
     ids = {}      # id(node) -> index
     nodes = []    # node objects, by index (kept alive so that ids stay unique)
     descs = []    # index -> description (filled when dequeued)
@@ -109,6 +109,8 @@ def canon_graph(roots, *, uid="drop", skip_attrs=(), registered=None, extra_obje
             if registered is not None and isinstance(x, base.BaseObject) and hasattr(x, "_links"):
                 d = d + (("registered", bool(registered(x))),)
             descs[i] = d
+    if return_nodes:
+        return (top, tuple(descs)), nodes
     return (top, tuple(descs))
 
 
